@@ -14,7 +14,7 @@ def run(ctx, replay):
         q = ctx.quick()
         out = ctx.sub("camp")
         args = ["campaign", "-cli", ctx.cli(), "-node", runcamp.NODE22, "-runts", runcamp.RUNTS, "-out", out, "-seed", ctx.seed,
-                "-shards", 4, "-par", 16, "-vet", "-corpus", runcamp.conf.CORPUS, "-nfeat", 50 if q else 700, "-featctrl", "-nlong", 8 if q else 60, "-nrand", 16 if q else 200,
+                "-shards", 4, "-par", 16, "-vet", "-corpus", runcamp.conf.CORPUS, "-nfeat", 50 if q else 700, "-featctrl", "-nlong", 8 if q else 60, "-ntok", 30 if q else 300, "-nrand", 16 if q else 200,
                 "-nexpr", 6 if q else 60, "-valued", 50, "-limit", 30, "-nrandom", 6]
         r = ctx.vh(args, timeout=3300)
         log(r.stdout.strip().splitlines()[-1])
